@@ -27,11 +27,25 @@ class Machine:
 def _expand(args):
     machine, hist = args
     out = []
-    st0 = machine.replay(hist)
+
+    def _exc(e, what):
+        import traceback
+
+        tb = traceback.extract_tb(e.__traceback__)[-1]
+        return {"clause": "exception", "signature": f"exception:{type(e).__name__}", "detail": f"{type(e).__name__}: {e} at {os.path.basename(tb.filename)}:{tb.lineno} during {what}", "instance": {"history": list(hist)}}
+
+    try:
+        st0 = machine.replay(hist)
+    except Exception as e:  # noqa - raised by the code under test while a reached history is replayed
+        return hist, [(("<replay>",), ("<exception>", repr(hist)), [_exc(e, f"replay of {list(hist)}")], None)]
     ops = machine.enabled(st0)
     first = True
     for op in ops:
-        st = st0 if first else machine.replay(hist)
+        try:
+            st = st0 if first else machine.replay(hist)
+        except Exception as e:  # noqa
+            out.append((op, ("<exception>", repr(hist), repr(op)), [_exc(e, f"replay of {list(hist)}")], None))
+            continue
         first = False
         try:
             viols = machine.step(st, op)
@@ -125,3 +139,39 @@ def search(machine, max_depth=None, nproc=1, label="", max_states=None, progress
         "violations": viols,
         "samples": samples,
     }
+
+
+def search_guarded(machine, timeout, **kw):
+    """search() in a forked child with a wall-clock limit: code under test that never returns (for example after
+    reading garbage) must end the check with a finding, not hang it.  Returns the result dict of search(); on a
+    timeout or a dead child a result with one violation and closed=False."""
+    ctx = multiprocessing.get_context("fork")
+    parent, child = ctx.Pipe(duplex=False)
+
+    def work():
+        try:
+            r = search(machine, **kw)
+            child.send(("ok", r))
+        except BaseException as e:  # noqa
+            child.send(("err", f"{type(e).__name__}: {e}"))
+        finally:
+            child.close()
+
+    p = ctx.Process(target=work)
+    p.start()
+    child.close()
+    res = None
+    if parent.poll(timeout):
+        try:
+            res = parent.recv()
+        except EOFError:
+            res = None
+    if p.is_alive():
+        p.kill()
+    p.join()
+    if res and res[0] == "ok":
+        return res[1]
+    name = getattr(machine, "name", "?")
+    why = f"no result within {timeout} s (the code under test hangs)" if res is None else f"search failed: {res[1]}"
+    v = {"clause": "timeout" if res is None else "crash", "signature": ("timeout:" if res is None else "crash:") + name, "detail": f"machine {name}: {why}", "instance": {"machine": name}}
+    return {"states": 0, "transitions": 0, "max_depth": 0, "closed": False, "capped": False, "violations": [v], "outcomes": Counter(), "samples": []}
